@@ -266,6 +266,20 @@ Definition segAnswer (fx : bool) (r : rep) (loopMS : Z) (c : tcfg) (codes : list
     end
   end.
 
+(** Generated subtitle tracks (timesubsstpp_/timesubswvtt_: timestpp-<lang>/<nr>.m4s) have no
+    representation data.  As the code is, calcStatusCode starts with findRepAndSegmentID, which does
+    not find them: with any statuscode_ pattern configured every media segment of such a track is
+    answered 404, scheduled or not.  (With proposed_fixes/C14-statuscode-generated-subtitles.diff
+    they follow the reference track like audio: [segAnswer] with [audio = Some (1000, 1)], the
+    subtitle timescale.) *)
+Definition subsAnswerUnrepaired (c : tcfg) (codes : list sscode) (nowMS base : Z) : answer :=
+  if negb (forallb codeValid codes) then AStatus 400 else
+  if nowMS <? startS c * 1000 then AStatus 425 else
+  match codes with
+  | [] => AStatus base
+  | _ => AStatus 404
+  end.
+
 (** * traffic_ *)
 
 Inductive lstate := LUnknown | LNo | L404 | LSlow | LHang.
